@@ -68,7 +68,52 @@ fn same<T: Elem>(a: &[T], b: &[T]) -> bool {
     a.len() == b.len() && a.iter().zip(b.iter()).all(|(x, y)| x.bits() == y.bits())
 }
 
+/// Views of sub-ranges of one live buffer, the empty ones `&buf[k..k]` included: a view names a *place*, so pointer and length
+/// must come back unchanged for every range (a foreign caller, or a tokenizer on the Rust side, may rely on where an empty range sits).
+fn subranges_t<T: Elem>(maxlen: usize, checks: &mut u64) {
+    let t = T::NAME;
+    let n = maxlen.min(9);
+    let mut buf: Vec<T> = (0..n as u64).map(|i| T::make(i * 17 + 3)).collect();
+    for i in 0..=n {
+        for j in i..=n {
+            {
+                let s: &[T] = &buf[i..j];
+                let (p, l) = (s.as_ptr(), s.len());
+                let d: DiplomatSlice<T> = s.into();
+                let r: Raw<T> = unsafe { raw_of(&d) };
+                if r.len != l || r.ptr as *const T != p {
+                    viol(format!("C16 DiplomatSlice<{t}> from &buf[{i}..{j}]: wire (ptr,len)=({:?},{}) expected ({:?},{})", r.ptr, r.len, p, l));
+                }
+                let dr: &[T] = &*d;
+                if dr.len() != l || dr.as_ptr() != p {
+                    viol(format!("C16 DiplomatSlice<{t}> deref of &buf[{i}..{j}]: ({:?},{}) expected ({:?},{})", dr.as_ptr(), dr.len(), p, l));
+                }
+                let back: &[T] = d.into();
+                if back.len() != l || back.as_ptr() != p {
+                    viol(format!("C16 DiplomatSlice<{t}> -> &[T] of &buf[{i}..{j}]: ({:?},{}) expected ({:?},{})", back.as_ptr(), back.len(), p, l));
+                }
+                *checks += 3;
+            }
+            {
+                let s: &mut [T] = &mut buf[i..j];
+                let (p, l) = (s.as_mut_ptr(), s.len());
+                let d: DiplomatSliceMut<T> = s.into();
+                let r: Raw<T> = unsafe { raw_of(&d) };
+                if r.len != l || r.ptr != p {
+                    viol(format!("C16 DiplomatSliceMut<{t}> from &mut buf[{i}..{j}]: wire (ptr,len) wrong"));
+                }
+                let back: &mut [T] = d.into();
+                if back.len() != l || back.as_mut_ptr() != p {
+                    viol(format!("C16 DiplomatSliceMut<{t}> -> &mut [T] of &mut buf[{i}..{j}]: ({:?},{}) expected ({:?},{})", back.as_mut_ptr(), back.len(), p, l));
+                }
+                *checks += 2;
+            }
+        }
+    }
+}
+
 fn roundtrip_t<T: Elem>(maxlen: usize, checks: &mut u64) {
+    subranges_t::<T>(maxlen, checks);
     let t = T::NAME;
     for len in 0..=maxlen {
         let mut v: Vec<T> = (0..len as u64).map(|i| T::make(i + len as u64 * 131)).collect();
@@ -208,6 +253,22 @@ fn str_samples(maxlen: usize) -> Vec<String> {
 }
 
 fn roundtrip_str(maxlen: usize, checks: &mut u64) {
+    // sub-ranges of one live string at every char boundary, the empty ones included
+    let whole = "a\u{e9}\u{20ac}\u{1f600}z";
+    let bounds: Vec<usize> = (0..=whole.len()).filter(|&k| whole.is_char_boundary(k)).collect();
+    for &i in &bounds {
+        for &j in bounds.iter().filter(|&&j| j >= i) {
+            let st: &str = &whole[i..j];
+            let d: DiplomatUtf8StrSlice = st.into();
+            let r: Raw<u8> = unsafe { raw_of(&d) };
+            let dr: &str = &*d;
+            let back: &str = d.into();
+            if r.len != st.len() || r.ptr as *const u8 != st.as_ptr() || dr.as_ptr() != st.as_ptr() || back.as_ptr() != st.as_ptr() || back.len() != st.len() {
+                viol(format!("C16 DiplomatUtf8StrSlice of whole[{i}..{j}]: wire ({:?},{}) deref {:?} back ({:?},{}) expected ({:?},{})", r.ptr, r.len, dr.as_ptr(), back.as_ptr(), back.len(), st.as_ptr(), st.len()));
+            }
+            *checks += 1;
+        }
+    }
     for s in str_samples(maxlen) {
         let st: &str = &s;
         let d: DiplomatUtf8StrSlice = st.into();
